@@ -68,26 +68,78 @@ func (p *c02Pipe) sameCount(o types.Object, seen map[types.Object]bool) bool {
 	return true
 }
 
-// c02Step recognises `v = (v + K) % N` / `v = (K + v) % N` and returns K and N.
+// c02Step recognises the round-robin step `v = (v + K) % N` / `v = (K + v) % N`, also when the expression is computed by
+// a helper whose body is a single return of that form over its parameters (`v = next(v, N)`), and returns K and N.
 func c02Step(info *types.Info, st ast.Node, v types.Object) (int64, types.Object, bool) {
 	as, ok := st.(*ast.AssignStmt)
 	if !ok || as.Tok != token.ASSIGN || len(as.Lhs) != 1 || len(as.Rhs) != 1 || objOf(info, as.Lhs[0]) != v {
 		return 0, nil, false
 	}
-	be, ok := ast.Unparen(as.Rhs[0]).(*ast.BinaryExpr)
+	return c02StepExpr(info, as.Rhs[0], v, nil, 0)
+}
+
+// c02DeclOf finds the declaration of a function of a loaded repository package (through the package views).
+func c02DeclOf(fn *types.Func) *FuncInfo {
+	if fn == nil {
+		return nil
+	}
+	for _, v := range pbfViewCache {
+		if fi := v.funcs[fn]; fi != nil {
+			return fi
+		}
+	}
+	return nil
+}
+
+// c02StepExpr matches e against (v + K) % N; env binds the parameters of the helpers entered so far to the argument
+// expressions of the caller.
+func c02StepExpr(info *types.Info, e ast.Expr, v types.Object, env map[types.Object]ast.Expr, depth int) (int64, types.Object, bool) {
+	var resolve func(x ast.Expr) ast.Expr
+	resolve = func(x ast.Expr) ast.Expr {
+		x = ast.Unparen(x)
+		if id, ok := x.(*ast.Ident); ok {
+			if o := objOf(info, id); o != nil {
+				if a, bound := env[o]; bound {
+					return a // already an expression of the outermost caller
+				}
+			}
+		}
+		return x
+	}
+	e = ast.Unparen(e)
+	if call, ok := e.(*ast.CallExpr); ok && depth < 3 {
+		fi := c02DeclOf(callee(info, call))
+		ret := singleReturnExpr(fi)
+		if ret == nil || fi.Decl.Recv != nil {
+			return 0, nil, false
+		}
+		env2 := map[types.Object]ast.Expr{}
+		pi := 0
+		for _, fld := range fi.Decl.Type.Params.List {
+			for _, nm := range fld.Names {
+				if pi < len(call.Args) {
+					env2[info.Defs[nm]] = resolve(call.Args[pi])
+				}
+				pi++
+			}
+		}
+		return c02StepExpr(info, ret, v, env2, depth+1)
+	}
+	be, ok := e.(*ast.BinaryExpr)
 	if !ok || be.Op != token.REM {
 		return 0, nil, false
 	}
-	sum, ok := ast.Unparen(be.X).(*ast.BinaryExpr)
+	sum, ok := ast.Unparen(resolve(be.X)).(*ast.BinaryExpr)
 	if !ok || sum.Op != token.ADD {
 		return 0, nil, false
 	}
+	x, y := resolve(sum.X), resolve(sum.Y)
 	var kx ast.Expr
 	switch {
-	case objOf(info, sum.X) == v:
-		kx = sum.Y
-	case objOf(info, sum.Y) == v:
-		kx = sum.X
+	case objOf(info, x) == v:
+		kx = y
+	case objOf(info, y) == v:
+		kx = x
 	default:
 		return 0, nil, false
 	}
@@ -95,7 +147,7 @@ func c02Step(info *types.Info, st ast.Node, v types.Object) (int64, types.Object
 	if !ok {
 		return 0, nil, false
 	}
-	n := objOf(info, be.Y)
+	n := objOf(info, resolve(be.Y))
 	return k, n, n != nil
 }
 
